@@ -26,7 +26,7 @@ IFACE = {"initialise": 1, "change_state_accept": 2, "change_state_block": 3, "ch
 
 def check(ctx):
     P = ctx.program
-    iters = (0, 1, 2) if ctx.tier == "thorough" else (0, 1)
+    iters = (0, 1)
     views = family_views(P, "Node")
     notifications(ctx, P, views, iters)
     class_writes(ctx, P, views, iters)
